@@ -16,7 +16,9 @@ TECHNIQUE = ("bounded-exhaustive enumeration: full product of a rule-violation g
 INSTANCES = ["", "Inst.", "My Instance.", "dotted.inst.", "ünï.", "a" * 63 + ".", "a" * 64 + ".",
              "é" * 31 + "a.", "é" * 32 + ".", "a\x00b.", "a\x1fb.", "a\x7fb.", "\t.", ".", "..", "a..b.", ".a.",
              "_sub.", "x._sub.", "._sub.", "x.y._sub.", "a" * 63 + "._sub.", "a" * 64 + "._sub.", "x\x01._sub.",
-             "a" * 40 + "." + "b" * 40 + ".", "_sub._sub.", "x._sub.y."]
+             "a" * 40 + "." + "b" * 40 + ".", "_sub._sub.", "x._sub.y.",
+             # instance labels (they may contain dots) that spell out a protocol trailer themselves
+             "foo._tcp.local.", "_a._tcp.local.", "x._udp.local.", "_a._tcp.local.bad.", "foo._tcp.local." + "x" * 60 + "."]
 SERVICES = ["_http", "_a", "_", "http", "_ht--tp", "_-http", "_http-", "_1234", "_a1-b", "_abcdefghijklmno",
             "_abcdefghijklmnop", "_ht_tp", "_ht tp", "_hté", "", "_HTTP", "_1a", "__a", "_a_", "-", "_-", "_a.b"]
 PROTOS = ["._tcp", "._udp", "._TCP", "._sctp", "", ".tcp", "._tcp._tcp"]
